@@ -208,6 +208,21 @@ fn random_history(rng: &mut Rng, rec: &mut Rec) {
                 }
             }
         }
+        if rng.chance(1, 6) {
+            if let BodySender::Flow(f) = &mut s {
+                // questions that must not change anything, asked at any time - after the end too
+                rec.call();
+                let chunked = f.is_chunked();
+                let _ = f.calculate_max_input(rng.usize_in(0, 30_000));
+                rec.cov(if m.terminated { "queries/after-the-end" } else { "queries/mid-body" });
+                if !chunked {
+                    return rec.fail("C03/query-changed-state", "is_chunked() turned false on a chunked body".into());
+                }
+                if f.can_proceed() != m.terminated {
+                    return rec.fail("C03/query-changed-state", format!("after is_chunked()/calculate_max_input(): finished = {} but the terminator {} out", f.can_proceed(), if m.terminated { "is" } else { "is not" }));
+                }
+            }
+        }
         let left = src.len() - pos;
         let mut k = match rng.below(10) {
             0 | 1 => 0,
